@@ -1,6 +1,8 @@
 package main
 
 import (
+	"bytes"
+	"os/exec"
 	"path/filepath"
 	"encoding/json"
 	"fmt"
@@ -146,6 +148,15 @@ func (b *builder) build(x *xExpr) carapace.Action {
 		persistent := []string{"json", "yaml"}
 		return carapace.ActionCobra(func(cmd *cobra.Command, args []string, toComplete string) ([]string, cobra.ShellCompDirective) {
 			return persistent, cobra.ShellCompDirectiveFilterFileExt
+		})
+	case "lsfiles":
+		// files styled by the LS_COLORS of the Context the action runs under; a callback may set the variable first
+		ls := x.S
+		return carapace.ActionCallback(func(c carapace.Context) carapace.Action {
+			if ls != "" {
+				c.Setenv("LS_COLORS", ls)
+			}
+			return carapace.ActionFiles().Invoke(c).ToA()
 		})
 	case "cobravalues":
 		persistent := []string{"one\tfirst", "two"}
@@ -390,6 +401,14 @@ func runHistory(raw json.RawMessage) interface{} {
 	results := make([]xResult, 0, len(in.Steps))
 	fresh := make([]xResult, 0, len(in.Steps))
 	ctxChanged := []int{}
+	// expressions whose result depends on state the library may keep per process (the file system, styles):
+	// the fresh value is computed by a fresh process
+	freshProcess := false
+	for _, x := range in.Table {
+		if x.K == "lsfiles" {
+			freshProcess = true
+		}
+	}
 	for i, s := range in.Steps {
 		c := s.Ctx.toContext()
 		before := fmt.Sprintf("%q|%q|%q|%q|%q", c.Value, c.Args, c.Parts, c.Env, c.Dir)
@@ -402,9 +421,50 @@ func runHistory(raw json.RawMessage) interface{} {
 		for _, x := range in.Table {
 			fb.table = append(fb.table, fb.build(x))
 		}
+		if freshProcess {
+			fresh = append(fresh, historyInChild(in, i))
+			continue
+		}
 		fresh = append(fresh, invokeSafe(fb.table[s.E], s.Ctx.toContext()))
 	}
 	return map[string]interface{}{"results": results, "fresh": fresh, "ctxChanged": ctxChanged}
+}
+
+// historyInChild: step i of the history alone, in a new process
+func historyInChild(in historyIn, i int) xResult {
+	one := in
+	one.Steps = []historyStep{in.Steps[i]}
+	js, _ := json.Marshal(one)
+	exe, err := os.Executable()
+	must(err)
+	cmd := exec.Command(exe, "history-child")
+	cmd.Stdin = bytes.NewReader(js)
+	out, err := cmd.Output()
+	var res xResult
+	if err != nil || json.Unmarshal(out, &res) != nil {
+		return xResult{Panic: "history-child failed: " + fmt.Sprint(err)}
+	}
+	return res
+}
+
+func historyChild(args []string) {
+	var in historyIn
+	must(json.NewDecoder(os.Stdin).Decode(&in))
+	carapace.VerifSetMatch(in.CI)
+	b := &builder{}
+	for _, x := range in.Table {
+		b.table = append(b.table, b.build(x))
+	}
+	s := in.Steps[0]
+	js, _ := json.Marshal(invokeSafe(b.table[s.E], s.Ctx.toContext()))
+	os.Stdout.Write(js)
+	for _, f := range cleanups {
+		f()
+	}
+}
+
+func init() {
+	subcommands["history-child"] = historyChild
 }
 
 // ---- op "repeat": byte-for-byte determinism of the formatted output (C10)
@@ -774,6 +834,16 @@ func genHistory(r *rng, tier string) interface{} {
 		for i := range ctxs {
 			ctxs[i].Env = []string{"OTHER=1", "VERIF_X=outer"}
 		}
+	}
+	if r.chance(3) {
+		// files under Contexts whose LS_COLORS differ (set by the caller, or by a callback on its own copy): the style of a
+		// path is a function of the path and the Context it is invoked with, whatever was styled before in this process
+		in.Table = []*xExpr{{K: "lsfiles", S: "*.txt=01;35", Opaque: true}, {K: "lsfiles", Opaque: true}, {K: "lsfiles", S: "*.txt=32:di=01;33:*.json=04", Opaque: true}}
+		envs := [][]string{nil, {"LS_COLORS=*.json=36"}, {"LS_COLORS="}}
+		for n := 3 + r.intn(3); n > 0; n-- {
+			in.Steps = append(in.Steps, historyStep{E: r.intn(3), Ctx: xCtx{Dir: "$HISTFIX", Value: pick(r, []string{"", "", "c", "sub/"}), Env: pick(r, envs)}})
+		}
+		return in
 	}
 	if r.chance(5) {
 		// completion functions registered with cobra that hand out the same slice every time: the bridge must not write into it
